@@ -56,7 +56,7 @@ _run3 = run
 def run(cx):
     from .. import rules_s as S
     _run3(cx)
-    S.carry_chain(cx, 'A-CARRY', ('gm_sm2::',), 10)
+    S.carry_chain(cx, 'A-CARRY', ('gm_sm2::',), 4)
 
 
 _run_curve = run
